@@ -4,7 +4,7 @@ for n in "$@"; do
   W=/tmp/ben-$n; git -C /repo worktree remove --force $W 2>/dev/null; rm -rf $W $W-ev
   git -C /repo worktree add -q --detach $W HEAD || continue
   if ! git -C $W apply /verif/seeded/benign/$n/patch.diff; then echo "$n PATCH DOES NOT APPLY"; git -C /repo worktree remove --force $W; continue; fi
-  for c in C01 C02 C03 C04 C05 C06 C07 C08 C09 C10 C11 C12 C13 C14 C15 C16 C17 C18 C19 C20; do
+  for c in ${BENIGN_CHECKS:-C01 C02 C03 C04 C05 C06 C07 C08 C09 C10 C11 C12 C13 C14 C15 C16 C17 C18 C19 C20}; do
     (cd ${VERIF_DIR:-/verif} && VERIF_REPO=$W VERIF_EVIDENCE=$W-ev bin/check $c --tier quick > /tmp/benign.$n.$c.out 2>&1); rc=$?
     if [ $rc != 0 ]; then echo "$n $c rc=$rc $(grep -E '^VIOLATION|HARNESS' /tmp/benign.$n.$c.out | head -2 | cut -c1-160 | tr '\n' ' ')"; fi
   done
